@@ -78,18 +78,56 @@ type sledger struct {
 	blocks []*sblock
 	byID   map[string]*sblock
 	snap   func(height int64) map[string][]byte // bucket/key -> value
+
+	// read-fault injection (readfault.go). While armed every read that can fail in a real ledger
+	// (block look-ups, snapshot creation, snapshot reads) is counted; read number failAt - and,
+	// when sticky, every later one - returns errReadFault instead of its answer.
+	armed  bool
+	reads  int
+	failAt int
+	sticky bool
+	faults int
+	trace  []string // kinds of the reads seen while armed
+	failed []string // kinds of the reads that were failed
 }
 
 var errNoBlock = fmt.Errorf("block not found")
+var errReadFault = fmt.Errorf("leveldb: read fault (injected by verif)")
+
+func (l *sledger) arm(failAt int, sticky bool) {
+	l.armed, l.reads, l.failAt, l.sticky, l.faults, l.trace, l.failed = true, 0, failAt, sticky, 0, nil, nil
+}
+func (l *sledger) disarm() { l.armed = false }
+
+// fault counts one read and says whether it has to fail.
+func (l *sledger) fault(kind string) bool {
+	if !l.armed {
+		return false
+	}
+	l.reads++
+	l.trace = append(l.trace, kind)
+	if l.failAt > 0 && (l.reads == l.failAt || l.sticky && l.reads > l.failAt) {
+		l.faults++
+		l.failed = append(l.failed, kind)
+		return true
+	}
+	return false
+}
 
 func (l *sledger) GetConsensusConf() ([]byte, error) { return []byte("{}"), nil }
 func (l *sledger) QueryBlock(id []byte) (ledger.BlockHandle, error) {
+	if l.fault("QueryBlock") {
+		return nil, errReadFault
+	}
 	if b, ok := l.byID[hex.EncodeToString(id)]; ok {
 		return b, nil
 	}
 	return nil, errNoBlock
 }
 func (l *sledger) QueryBlockByHeight(h int64) (ledger.BlockHandle, error) {
+	if l.fault("QueryBlockByHeight") {
+		return nil, errReadFault
+	}
 	if h < 0 || int(h) >= len(l.blocks) {
 		return nil, errNoBlock
 	}
@@ -97,20 +135,32 @@ func (l *sledger) QueryBlockByHeight(h int64) (ledger.BlockHandle, error) {
 }
 func (l *sledger) GetTipBlock() ledger.BlockHandle { return l.blocks[len(l.blocks)-1] }
 func (l *sledger) GetTipXMSnapshotReader() (ledger.XMSnapshotReader, error) {
-	return &sreader{data: l.snap(int64(len(l.blocks) - 1))}, nil
+	if l.fault("GetTipXMSnapshotReader") {
+		return nil, errReadFault
+	}
+	return &sreader{data: l.snap(int64(len(l.blocks) - 1)), l: l}, nil
 }
 
-type sreader struct{ data map[string][]byte }
+type sreader struct {
+	data map[string][]byte
+	l    *sledger
+}
 
 func (r *sreader) Get(bucket string, key []byte) ([]byte, error) { // XMSnapshotReader
+	if r.l != nil && r.l.fault("XMSnapshotReader.Get") {
+		return nil, errReadFault
+	}
 	return r.data[bucket+"/"+string(key)], nil
 }
 
 // sxm adapts sreader to ledger.XMReader (different Get signature).
 type sxm struct{ r *sreader }
 
-func (l *sledger) xm(h int64) ledger.XMReader { return &sxm{&sreader{data: l.snap(h)}} }
+func (l *sledger) xm(h int64) ledger.XMReader { return &sxm{&sreader{data: l.snap(h), l: l}} }
 func (x *sxm) Get(bucket string, key []byte) (*ledger.VersionedData, error) {
+	if x.r.l != nil && x.r.l.fault("XMReader.Get") {
+		return nil, errReadFault
+	}
 	v, ok := x.r.data[bucket+"/"+string(key)]
 	if !ok {
 		return nil, nil
@@ -172,6 +222,9 @@ type scenario struct {
 	led     *sledger
 	inst    base.ConsensusImplInterface
 	log     *sn.CapLogger
+
+	faultAt     int  // read-fault injection for the next run(): number of the read to fail (0 = none)
+	faultSticky bool // ... and every later read too
 }
 
 func blockID(h int64) []byte {
@@ -318,6 +371,9 @@ func (s *scenario) reorganise(fork int, A2 []int) {
 type ledgerAdapter struct{ *sledger }
 
 func (l *ledgerAdapter) CreateSnapshot(id []byte) (ledger.XMReader, error) {
+	if l.fault("CreateSnapshot") {
+		return nil, errReadFault
+	}
 	b, ok := l.byID[hex.EncodeToString(id)]
 	if !ok {
 		return nil, errNoBlock
@@ -325,6 +381,9 @@ func (l *ledgerAdapter) CreateSnapshot(id []byte) (ledger.XMReader, error) {
 	return l.xm(b.height), nil
 }
 func (l *ledgerAdapter) GetTipSnapshot() (ledger.XMReader, error) {
+	if l.fault("GetTipSnapshot") {
+		return nil, errReadFault
+	}
 	return l.xm(int64(len(l.blocks) - 1)), nil
 }
 
@@ -346,13 +405,21 @@ type BcsCase struct {
 }
 
 func (s *scenario) run(c *BcsCase, rng *rand.Rand) caseResult {
+	blk, desc := s.makeBlock(c, rng, s.bid(tipHeight+1))
+	res := s.check(blk)
+	res.Built = desc
+	return res
+}
+
+// makeBlock builds the block of height 13 (id `id`) that carries the certificate of the case.
+func (s *scenario) makeBlock(c *BcsCase, rng *rand.Rand, id []byte) (*sblock, []string) {
 	m := s.m
 	signSet := s.A
 	if s.signers != nil {
 		signSet = s.signers
 	}
 	w := makeWorld(signSet, s.bid(tipHeight), s.bid(tipHeight-1))
-	w.P = s.bid(tipHeight + 1)
+	w.P = id
 	signs, desc := m.Build(w, c.Toks, c.Fresh, rng)
 	justify := &bft.QuorumCert{VoteInfo: &bft.VoteInfo{ProposalId: s.bid(tipHeight), ProposalView: c.ClaimedView, ParentId: s.bid(tipHeight - 1), ParentView: tipHeight - 1},
 		SignInfos: signs}
@@ -361,7 +428,7 @@ func (s *scenario) run(c *BcsCase, rng *rand.Rand) caseResult {
 		panic(err)
 	}
 	st := common.ConsensusStorage{Justify: old}
-	blk := &sblock{height: tipHeight + 1, id: s.bid(tipHeight + 1), pre: s.bid(tipHeight), proposer: m.ids[s.B[c.ProposerPos]].Address}
+	blk := &sblock{height: tipHeight + 1, id: id, pre: s.bid(tipHeight), proposer: m.ids[s.B[c.ProposerPos]].Address}
 	if s.Cons == "tdpos" {
 		st.CurTerm = 4
 		slot := int64(c.ProposerPos*tdposBlkN) + int64(rng.Intn(tdposBlkN))
@@ -371,7 +438,14 @@ func (s *scenario) run(c *BcsCase, rng *rand.Rand) caseResult {
 		blk.ts = xpoaPosTime(len(s.B), c.ProposerPos)
 	}
 	blk.storage, _ = json.Marshal(st)
-	res := caseResult{Built: desc}
+	return blk, desc
+}
+
+// check gives a block to the instance's CheckMinerMatch (with the scenario's read fault armed).
+func (s *scenario) check(blk *sblock) caseResult {
+	res := caseResult{}
+	s.led.arm(s.faultAt, s.faultSticky)
+	defer s.led.disarm()
 	func() {
 		defer func() {
 			if p := recover(); p != nil {
@@ -387,6 +461,18 @@ func (s *scenario) run(c *BcsCase, rng *rand.Rand) caseResult {
 		}
 	}()
 	return res
+}
+
+// confirm tells the instance that the block was confirmed by the ledger (ProcessConfirmBlock: the
+// block's justify signatures are merged into the instance's vote store).
+func (s *scenario) confirm(blk *sblock) (pan string) {
+	defer func() {
+		if p := recover(); p != nil {
+			pan = fmt.Sprint(p)
+		}
+	}()
+	s.inst.ProcessConfirmBlock(blk)
+	return ""
 }
 
 func posIn(set []int, u int) int {
